@@ -72,7 +72,7 @@ def eligible(item, cfg):
     src = item.rust()
     if getattr(item, 'expect_error', None):
         return False
-    if re.search(r'Zeroize(OnDrop)?\s*\(\s*crate\s*=\s*"?(?!::zeroize\b)', src):
+    if re.search(r'Zeroize(OnDrop)?\s*\(\s*crate\s*=\s*"?(?![\s"])(?!(::)?zeroize_?\b|krate::zeroize\b)', src):
         return False          # a zeroize crate path that names nothing in the harness crate (E0433 is not about typing)
     return cfg in ZCFGS or 'Zeroize' not in src
 
